@@ -1,0 +1,121 @@
+//go:build verif
+
+package main
+
+import (
+	"encoding/json"
+	"sort"
+	"strings"
+
+	auto "github.com/moorara/algo/automata"
+
+	"github.com/gardenbed/emerge/internal/ebnf/parser/spec"
+)
+
+func init() {
+	register("repeat", opRepeat)
+	register("term_map", opTermMap)
+}
+
+// rawRun runs the whole front end once and renders everything a caller can observe, keeping every order as produced.
+func rawRun(text string) string {
+	out := map[string]any{}
+	s, err := spec.Parse("f", strings.NewReader(text))
+	if err != nil {
+		out["parse_error"] = err.Error()
+		b, _ := json.Marshal(out)
+		return string(b)
+	}
+	out["spec"] = dumpSpec(s)
+	d, termMap, derr := s.DFA()
+	if derr != nil {
+		out["dfa_error"] = derr.Error()
+	} else {
+		out["dfa"] = dumpDFA(d)
+		tm := map[string][]int{}
+		for t, states := range termMap {
+			l := []int{}
+			for _, st := range states {
+				l = append(l, int(st))
+			}
+			tm[string(t)] = l
+		}
+		out["term_map_raw"] = tm
+	}
+	if _, terr := s.LALRParsingTable(); terr != nil {
+		out["table_error"] = terr.Error()
+	}
+	b, _ := json.Marshal(out)
+	return string(b)
+}
+
+// opRepeat runs the front end several times in this process (every map range draws a new iteration order)
+// and returns the distinct observable results.
+func opRepeat(req request) response {
+	times := num(req, "times", 8)
+	seen := map[string]int{}
+	for i := 0; i < times; i++ {
+		seen[rawRun(str(req, "text"))]++
+	}
+	variants := []string{}
+	for v := range seen {
+		variants = append(variants, v)
+	}
+	sort.Strings(variants)
+	if len(variants) > 4 {
+		variants = variants[:4]
+	}
+	return response{"outcome": "ok", "distinct": len(seen), "variants": variants}
+}
+
+// opTermMap dumps the inputs and the result of the second half of Spec.DFA: per definition the final states of the
+// combined automaton (as CombineDFA returns them) and the terminal map with the states in the order produced.
+func opTermMap(req request) response {
+	s, err := parseSpec(req)
+	if err != nil {
+		return response{"outcome": "error", "stage": "parse", "error": err.Error()}
+	}
+	ds := make([]*auto.DFA, len(s.Definitions))
+	defs := [][]any{}
+	for i, def := range s.Definitions {
+		pos := ""
+		if def.Pos != nil {
+			pos = def.Pos.String()
+		}
+		defs = append(defs, []any{string(def.Terminal), def.IsRegex, pos})
+		if !def.IsRegex {
+			ds[i] = spec.VerifStringToDFA(def.Value)
+		} else {
+			var rerr error
+			if ds[i], rerr = spec.VerifRegexToDFA(def.Value); rerr != nil {
+				return response{"outcome": "error", "stage": "pattern", "error": rerr.Error()}
+			}
+		}
+	}
+	combined, stateMap := auto.CombineDFA(ds...)
+	sm := [][]int{}
+	for _, finals := range stateMap {
+		l := []int{}
+		for _, f := range finals {
+			l = append(l, int(f))
+		}
+		sm = append(sm, l)
+	}
+	res := response{"outcome": "ok", "definitions": defs, "state_map": sm}
+	d, termMap, derr := s.DFA()
+	if derr != nil {
+		res["dfa_error"] = derr.Error()
+		return res
+	}
+	res["same_automaton"] = d.Equal(combined)
+	tm := map[string][]int{}
+	for t, states := range termMap {
+		l := []int{}
+		for _, st := range states {
+			l = append(l, int(st))
+		}
+		tm[string(t)] = l
+	}
+	res["term_map_raw"] = tm
+	return res
+}
